@@ -298,7 +298,7 @@ def RT (log : γ → List Token) (r : Rewriter γ) : Prop :=
 theorem new_RT (w : World γ) (log : γ → List Token) (g : γ) (cfg : Settings) (hg : log g = []) :
     RT log (Rewriter.new w g cfg) := by
   have ho : Good (log g) := by rw [hg]; exact ⟨trivial, by simp⟩
-  have hT : TInv log (Rewriter.new w g cfg).stream.disp := by
+  have hT : TextInv log (Rewriter.new w g cfg).stream.disp := by
     refine ⟨ho, ?_, ?_⟩
     · intro hp; simp [Rewriter.new, Stream.new, Stream.disp, Parser.new, Disp.new] at hp
     · intro _ a ha
